@@ -1100,6 +1100,22 @@ func (v *Verifier) VerifyFunc(cs *ContractSet, spec *FuncSpec) (res *FuncResult)
 			st.assume(env.evalBool(c.Expr))
 			r.note("assume clause in contract of " + fname + ": " + c.Text)
 		}
+		// "uses L1, L2": lemmas of the package (each one a separately proved obligation) as hypotheses
+		for _, c := range spec.ClausesOf("uses") {
+			for _, name := range strings.Split(c.Text, ",") {
+				name = strings.TrimSpace(name)
+				found := false
+				for _, l := range cs.Lemmas {
+					if l.Name == name {
+						st.assume(v.lemmaTerm(l))
+						found = true
+					}
+				}
+				if !found {
+					panic(specErr{msg: "uses: unknown lemma " + name})
+				}
+			}
+		}
 		fr.entry = st.clone()
 		res.CoverHyps = append([]*Term(nil), st.pc...)
 		fr.ret = func(fr *Frame, st2 *State, rv *Val) {
